@@ -246,6 +246,8 @@ var c06multi = [][]string{
 	{"\x01 = {}\n", "\x02.y = 2\n", "print(\x03)\n", "\x04 = nil\n"},
 	// a global named like its module file, loaded by a bare require statement / a require assigned to a global
 	{"a = {}\na.v = 1\n", "require(\"a\")\nq = a.v\nh = a\n", "r = require(\"a\")\ns = a\nt = r\n", "m = \x04\n"},
+	// project globals named like names the server knows by itself (file, import)
+	{"file = {}\nfile.v = 1\n", "q = file.v\nh = file\n", "import = 1\n", "m = import\nn = \x04\n"},
 }
 
 func c06multiRun(src common.CheckReferenceSrc, tag, prefix string) {
